@@ -54,6 +54,10 @@ def check(ctx):
                     close = 'bad'
                 elif gross_sum(c[2][0]):
                     close = v
+                elif c[2][0][0] == 'num' or any(s_[0] == 'call' and s_[1][0] == 'ext' and s_[1][1].startswith('numpy.') for s_ in T.subterms(c[2][0])):
+                    # what is tested was computed by array arithmetic (or folded away by the engine): not related to sum(|w|) by this rule
+                    ctx.undecided('C11.S1', 'the "weights ~ 0" shortcut tests the gross exposure sum(|w|)', fn.site(), 'it tests %s' % fmt(c[2][0])[:120])
+                    close = 'bad'
                 else:
                     ctx.violation('C11.S1', 'the "weights ~ 0" shortcut tests the gross exposure sum(|w|)', fn.site(),
                                   'it tests %s: a dollar-neutral vector would come back unscaled' % fmt(c[2][0])[:120], key='C11.S1|guard')
